@@ -1269,11 +1269,10 @@ def parse_guard_scope(ctx):
     R.check(n == 1, rule, f'{CTRL}.on_packet | answering handlers', 'one', f'{n} found')
 
 
-def connect_ind_address(ctx):
+def connect_ind_address(ctx, rule='C03.connect-ind-address'):
     """The address the central announces in CONNECT_IND is the one it registers its own end of the link under (and sends
     its LL control PDUs from): the peer files the link under the announced address and drops control PDUs from any other."""
     R, p = ctx.r, ctx.p
-    rule = 'C03.connect-ind-address'
     fn = p.find(f'{CTRL}.create_le_connection')
     if fn is None:
         R.bad(rule, f'{CTRL}.create_le_connection', 'anchor missing')
